@@ -47,6 +47,9 @@ def run(ctx):
             recs.append(scenarios.run_spec(scenarios.make_spec(ctx.rng, a, valid=True, small=ctx.quick), max_steps=40))
     for v in range(3):
         recs.append(scenarios.run_spec(scenarios.epal_directed("nonpess-coverer", variant=v), max_steps=10))
+    for v in range(3):
+        # three objectives, acute cone: the discarding decision hinges on one particular pair of rectangle corners
+        recs.append(scenarios.run_spec(scenarios.vogp_acute3_directed(v), max_steps=20))
     viol = []
     stats = {"runs": len(recs), "finished": 0, "valid": 0, "judged": 0, "discarded_some": 0, "isolated_designs": 0}
     for rec in recs:
@@ -69,7 +72,7 @@ def run(ctx):
                          "message": f"{rec['algo']} (cone {rec['spec']['cone']}, slack {[float(x) for x in s]}) finished with P={P} on a history that kept the truth inside every displayed rectangle, but {bad[:3]} (truth {rec['spec']['Y']})",
                          "replay": algcommon.jsonable({"spec": rec["spec"], "bad": bad})})
     return {"evaluations": len(recs), "distinct_nontrivial": stats["judged"], "traces": stats["judged"],
-            "rule": "valid-by-construction stub histories for VOGP (integer cones incl. obtuse and K>m) and eps-PAL, batch sizes 1-7, run to termination; validity re-checked exactly every round; final P judged exactly on the true values: every design no other design matches up to the eps-slack is in P, no member of P dominated by another member by more than the slack; non-trivial = judged runs",
+            "rule": "valid-by-construction stub histories for VOGP (integer cones incl. obtuse and K>m) and eps-PAL, batch sizes 1-7, run to termination, plus directed histories (eps-PAL non-pessimistic coverer; VOGP with three objectives under an acute cone where one corner pair decides the discarding test); validity re-checked exactly every round; final P judged exactly on the true values: every design no other design matches up to the eps-slack is in P, no member of P dominated by another member by more than the slack; non-trivial = judged runs",
             "samples": [algcommon.jsonable({k: v for k, v in recs[i]["spec"].items() if k not in ("means", "hw")}) for i in range(min(3, len(recs)))],
             "violations": viol, "extra": stats}
 
